@@ -9,13 +9,11 @@ import (
 )
 
 // TokensFromShares calculate the token amount of provided shares, then truncated to Int
-// It uses `LegacyDec.Quo` to calculate the quotient, `LegacyDec.Quo` perform a bankers
-// rounding quotient, so the calculated token amount may be either larger or smaller
-// due to precision rounding issues. But it's acceptable, because bankers rounding balances the
-// deviation caused by precision, especially when a large number of restakers undertake
-// undelegation. Additionally, the last undelegation from an operator will undelegate all
-// remaining token to avoid the calculated token amount is bigger than the remaining token
-// caused by the bankers rounding.
+// It uses `LegacyDec.QuoTruncate` to calculate the quotient, so the calculated token amount is the
+// floor of share*amount/totalShare: a staker never gets more than its share of the pool, and a
+// staker that does not hold all the shares never gets the whole pool. (`LegacyDec.Quo` performs a
+// bankers rounding at 18 decimals first, which rounds 2 - 2.5e-19 up to 2.) The last undelegation
+// from an operator still undelegates all remaining token, so no dust is left behind.
 func TokensFromShares(stakerShare, totalShare sdkmath.LegacyDec, totalAmount sdkmath.Int) (sdkmath.Int, error) {
 	if stakerShare.GT(totalShare) {
 		return sdkmath.NewInt(0), errorsmod.Wrapf(delegationtypes.ErrInsufficientShares, "the stakerShare is:%v the totalShare is:%v", stakerShare, totalShare)
@@ -27,7 +25,7 @@ func TokensFromShares(stakerShare, totalShare sdkmath.LegacyDec, totalAmount sdk
 		}
 		return sdkmath.NewInt(0), delegationtypes.ErrDivisorIsZero
 	}
-	return (stakerShare.MulInt(totalAmount)).Quo(totalShare).TruncateInt(), nil
+	return (stakerShare.MulInt(totalAmount)).QuoTruncate(totalShare).TruncateInt(), nil
 }
 
 // SharesFromTokens returns the shares of a delegation given a delegated amount. It
